@@ -771,8 +771,9 @@ LABEL(exit)
 
 
 LABEL(getline)
-  INC(SP, 1)
+  INC(SP, 2)
   STORE(PC_ret, 0, FP)
+  STORE(FP_alt, 1, FP)   // the caller's frame pointer: the call to malloc below uses FP_alt
   __eval("stdlib.tiger_getline_preamble_reg(vm)")
   MOVE(R12, SP)
 
@@ -782,7 +783,8 @@ LABEL(getline)
 
   __eval("stdlib.tiger_getline_epilogue_reg(vm)")
   LOAD(PC_ret, 0, FP)
-  DEC(SP, 1)
+  LOAD(FP_alt, 1, FP)
+  DEC(SP, 2)
 
   RETURN(FP_alt, PC_ret)
 
@@ -851,7 +853,8 @@ LABEL(ord)
 
 
 LABEL(getchar)
-  INC(SP, 1)
+  INC(SP, 2)
+  STORE(FP_alt, 1, FP)   // the caller's frame pointer: the calls below use FP_alt
 
   SET(R1, 2)
   MOVE(FP_alt, SP)
@@ -881,7 +884,8 @@ LABEL(getchar)
   // Set R1 to return value (pointer to string)
   MOVE(R1, Rt)
 
-  DEC(SP, 1)
+  LOAD(FP_alt, 1, FP)
+  DEC(SP, 2)
 
   // Restore old program counter.
   MOVE(PC_ret, R2)
